@@ -160,7 +160,11 @@ def oracle(run, spec, vfloat, vkey, wrap, c, text, case):
             elif k in ("Version", "Well") and f(m).upper() in ("API", "UWI"):
                 ev = str(v)
             else:
-                ev = P.num(str(v))
+                # independent reading of "numbers compared numerically": the hand-written literal recogniser of the C08 oracle,
+                # not lasio's own num() (a defect in num() would otherwise hide on both sides)
+                from . import c08
+                e8, _ = c08.oracle(str(v))
+                ev = str(v) if e8[0] == "str" else e8[1]
             obs = [g.original_mnemonic, g.unit, g.value, g.descr]
             ok = g.original_mnemonic == f(m) and g.unit == str(u) and same_value(ev, g.value) and g.descr == str(d)
             if not ok:
